@@ -561,6 +561,7 @@ func object(p *Parser) (Expr, error) {
 			return nil, err
 		}
 		key := p.lexer.GetString(p.previous)
+		keyToken := *p.previous
 		if err = p.consume(Colon); err != nil {
 			return nil, err
 		}
@@ -568,7 +569,7 @@ func object(p *Parser) (Expr, error) {
 		if err != nil {
 			return nil, err
 		}
-		items = append(items, ObjectKeyValue{key, value})
+		items = append(items, ObjectKeyValue{key, value, keyToken})
 
 		if p.current.Tag == Comma {
 			if err = p.consume(Comma); err != nil {
